@@ -18,7 +18,7 @@ enum { O_INS, O_RM, O_FIND, O_LEN, O_TRAV, O_ITR_NEW, O_ITR_NEXT, O_ITR_GET, O_I
 typedef struct { int key, ident; } cell_t;
 static cell_t C[MAXK][2], K[MAXK];            /* stored identities, and look-up keys that are never stored */
 /* default comparator: pointer-valued elements, never dereferenced; chosen so that differences overflow int */
-static const uintptr_t PV[MAXK] = { 0x1000, 0x2000, 0x90000000ul, 0x100001000ul, 0x7fff00000000ul, 0x100002000ul, 0x80001000ul, 0x3000 };
+static const uintptr_t PV[MAXK] = { 0x1000, 0x5555555555555000ul, 0x90000000ul, 0xAAAAAAAAAAAAA000ul, 0x7fff00000000ul, 0x100002000ul, 0x80001000ul, 0x100001000ul };      /* also values a third of the address space apart: their differences overflow intptr_t */
 static int pv_rank[MAXK];                      /* rank of PV[i] in ascending order */
 
 #define CBEG ((cell_t *)C)
